@@ -204,12 +204,19 @@ def repeat_after_damage(ctx, rng, cache, destroot, modes):
         sri = w["ok"]["sri"]
         path = ref.content_path_sri(cache, sri)
         for mode in modes:
-            for n in [x for x in retr.CHECKED_EXTRACT if retr.available(x, mode)]:
-                ddir = os.path.join(destroot, f"again-{size}-{mode.replace('@', '-')}-{n}")
+            avail = [x for x in retr.CHECKED_EXTRACT if retr.available(x, mode)]
+            firsts = [x for x in retr.CHECKED_EXTRACT + retr.UNCHECKED_EXTRACT if retr.available(x, mode) and not x.startswith("reflink")]
+            # the second (checked) extraction n goes to a destination that an earlier extraction n1 produced: the same
+            # entry point again, or any other one (a hard link shares the content file's inode, a copy does not)
+            pairs = [(n, n) for n in avail] + [(n1, n) for n1 in firsts for n in avail if n1 != n and not n.startswith("reflink")]
+            if ctx.quick:
+                pairs = [(n, n) for n in avail] + rng.sample(pairs[len(avail):], min(8, len(pairs) - len(avail)))
+            for n1, n in pairs:
+                ddir = os.path.join(destroot, f"again-{size}-{mode.replace('@', '-')}-{n1}-{n}")
                 os.makedirs(ddir)
                 dest = os.path.join(ddir, "out")
                 q = retr.request(n, cache, key, sri, dest)
-                r1 = ctx.call(mode, q)
+                r1 = ctx.call(mode, retr.request(n1, cache, key, sri, dest))
                 with open(path, "r+b") as f:          # in place: the inode (and any hard link to it) stays the same
                     b0 = f.read(1)
                     f.seek(0)
@@ -217,14 +224,17 @@ def repeat_after_damage(ctx, rng, cache, destroot, modes):
                 damaged = open(path, "rb").read()
                 r2 = ctx.call(mode, q)
                 kind, got = retr.read_dest(dest)
-                ctx.case(distinct_key=("repeat-after-damage", n, mode, size))
+                ctx.case(distinct_key=("repeat-after-damage", n1, n, mode, size))
                 ctx.count("repeat_after_damage")
                 if ev.is_ok(r2) and got != data:
                     ctx.violation(f"{n}|{mode}|repeat-after-in-place-damage|Ok",
-                                  f"{n} in {mode}: extracted once, content then damaged in place, second extraction to the same "
+                                  f"{n} in {mode}: extracted once (by {n1}), content then damaged in place, second extraction to the same "
                                   f"destination returned Ok although the destination holds bytes that fail verification",
-                                  {"entry_point": n, "mode": mode, "size": size, "first": ev.brief(r1), "steps": [[mode, q], [mode, q]]})
-                elif not ev.is_ok(r2) and not n.startswith("hard_link") and kind in ("file", "symlink") and got == damaged:
+                                  {"entry_point": n, "first_entry_point": n1, "mode": mode, "size": size, "first": ev.brief(r1),
+                                   "steps": [[mode, retr.request(n1, cache, key, sri, dest)], [mode, q]]})
+                elif not ev.is_ok(r2) and not n.startswith("hard_link") and not n1.startswith("hard_link") \
+                        and kind in ("file", "symlink") and got == damaged:
+                    # (a destination that IS the content file's inode shows the damage whatever the second call does)
                     ctx.violation(f"{n}|{mode}|repeat-after-in-place-damage|unverified-bytes-left",
                                   f"{n} in {mode}: second extraction failed verification but left the unverified bytes", {"steps": [[mode, q]]})
                 with open(path, "r+b") as f:
